@@ -633,6 +633,17 @@ func (c *client) cleanup() {
 	}
 }
 
+// mcastActive counts the multicast players that are attached and have not left
+func mcastActive(clients []*client) int {
+	n := 0
+	for _, cl := range clients {
+		if cl.kind == 6 && cl.attached && !cl.stopped && !cl.isEnded() {
+			n++
+		}
+	}
+	return n
+}
+
 func publishViaSession() (net.Conn, error) {
 	nc, err := net.Dial("tcp", rtspL.Addr().String())
 	if err != nil {
@@ -799,10 +810,18 @@ func Run(c Val) Val {
 			cl := clients[i]
 			drained(3 * time.Second)
 			attachedAt[i] = published
+			if cl.kind == 6 && mcastActive(clients) > 0 {
+				cl.noCountWait = true // a further member of the running multicast proxy adds no consumer to the stream
+			}
 			if err := cl.attach(stream); err != nil {
 				return L(S("!setup"), S(err.Error()))
 			}
 			cl.attached = true
+			if cl.noCountWait {
+				if ma := stream.Multicastable(); ma != nil {
+					waitUntil(time.Second, func() bool { m, _, _, _ := rtsp.VerifMulticastState(ma); return m == mcastActive(clients) })
+				}
+			}
 			cl.stream = stream
 			if refs && cl.isFLV() {
 				cl.ref = &refConsumer{}
@@ -819,7 +838,20 @@ func Run(c Val) Val {
 				cl.stream.StopConsume(cl.refCID)
 				before--
 			}
-			waitUntil(3*time.Second, func() bool { return cl.isEnded() && cl.stream.ConsumerCount() < before })
+			if cl.kind == 6 {
+				for k, u := range cl.udp { // a player that has left no longer listens on the group
+					if u != nil {
+						u.Close()
+						cl.udp[k] = nil
+					}
+				}
+			}
+			if cl.kind == 6 && mcastActive(clients) > 0 {
+				// other members keep the proxy (and its one consumption) running
+				waitUntil(3*time.Second, func() bool { return cl.isEnded() })
+			} else {
+				waitUntil(3*time.Second, func() bool { return cl.isEnded() && cl.stream.ConsumerCount() < before })
+			}
 			settle()
 		case 4:
 			// a new publisher registers the path: the previous stream is retired, alive while it has consumers
